@@ -9,6 +9,9 @@
 (* InRange of HalfLife.tla follow, and  Spec => [][Variant]_vars : every     *)
 (* bisection step strictly shrinks the bracket and every doubling step       *)
 (* doubles pw, which is bounded by 2*Len - the termination argument.         *)
+(* Result: on a monotone pattern (above exactly up to some lag) the value    *)
+(* returned is the first lag that is not above, or the last lag if all are   *)
+(* - ResultLaw of HalfLife.tla without a bound.                              *)
 (***************************************************************************)
 EXTENDS Integers, TLAPS
 
@@ -124,4 +127,32 @@ THEOREM Progress == Spec => [][Variant]_vars
     BY <2>4 DEF vars, Variant
   <2> QED BY <2>1, <2>2, <2>3, <2>4 DEF Next
 <1>2. QED BY <1>1, Safety, PTL DEF Spec
+
+\* C20: on a pattern that stays above exactly up to some lag the search returns the first lag that is not above,
+\* or the last lag of the series if every lag is above (ResultLaw of HalfLife.tla, for EVERY length)
+Monotone == \A p \in 1..(Len - 1), q \in 1..(Len - 1) : (p < q /\ above[q]) => above[p]
+ResultChar == (pc = "done" /\ Len >= 2 /\ Monotone) =>
+                 /\ n \in 1..(Len - 1)
+                 /\ \A k \in 1..(n - 1) : above[k]
+                 /\ ~above[n] \/ n = Len - 1
+
+THEOREM Result == Spec => []ResultChar
+<1>1. Inv => ResultChar
+  <2> SUFFICES ASSUME Inv, pc = "done", Len >= 2, Monotone PROVE
+                      n \in 1..(Len - 1) /\ (\A k \in 1..(n - 1) : above[k]) /\ (~above[n] \/ n = Len - 1)
+    BY DEF ResultChar
+  <2>1. n \in Nat /\ last_n \in Nat /\ last_n <= n /\ n <= Len - 1 /\ n - last_n <= 1 /\ n # 0
+        /\ (last_n = 0 \/ Above(last_n)) /\ (~Above(n) \/ n = Len - 1)
+    BY LenNat DEF Inv
+  <2>2. n \in 1..(Len - 1)
+    BY <2>1, LenNat
+  <2>3. \A k \in 1..(n - 1) : above[k]
+    <3> TAKE k \in 1..(n - 1)
+    <3>1. last_n >= 1 /\ k <= last_n /\ above[last_n] /\ last_n \in 1..(Len - 1)
+      BY <2>1, LenNat DEF Above
+    <3> QED BY <3>1, <2>1, LenNat DEF Monotone
+  <2>4. ~above[n] \/ n = Len - 1
+    BY <2>1, <2>2, LenNat DEF Above
+  <2> QED BY <2>2, <2>3, <2>4
+<1>2. QED BY <1>1, Safety, PTL
 =============================================================================
